@@ -24,7 +24,10 @@ RULE = ('LIST: pattern sequences over {a, b, ..., M(t=...), M(t=a), MTAG(t)} x q
         'tags, {m,n} up to 3, three tags) — each against ALL 364 element sequences over {a,b,c} of length <= 5, as FST '
         'and as pure AST targets; real result (accept/reject + every capture as index ranges) compared with the Lean '
         'model (must agree, the known re-entry defect included) and with re.fullmatch on the letter encoding (the property). '
-        'PRODUCTS (deterministic): None / MMAYBE patterns vs every falsy value; MQ constructor bounds vs re {m,n}; views '
+        'PRODUCTS (deterministic): a tree with every primitive kind in every primitive position (bytes of 2+ bytes, large '
+        'ints, float, complex, None, Ellipsis, bool, str, identifiers, level, conversion) vs the pattern from an independent '
+        'parse and from a deep copy with fresh equal leaf objects, node by node, and search with hand-written constants; '
+        'None / MMAYBE patterns vs every falsy value; MQ constructor bounds vs re {m,n}; views '
         '(slices of Compare/Dict/MatchMapping/arguments._all) as patterns vs the copies of all slices; the documented '
         'single-argument rules of Marguments(_all=[...]) (kind x _strict x default spec x target). '
         'EVENTS: search(pattern, nested, on=, back=, scope=) for on in enter/leave/both x nested x back x scope, from the '
